@@ -43,8 +43,13 @@ package kernel
 //@   ensures [canonical] err == nil ==> len(tx.Extra) >= 2599 && (len(tx.Extra) - 128) % 353 == 0
 //@   ensures [approval] err == nil ==> exists ts uint64 :: ts >= node.Epoch && (s.Timestamp != 0 ==> ts == s.Timestamp) &&
 //@       common.ApprovalOK(CustodianAt(node.persistStore, ts).Custodian, tx.Extra)
+//@   -- [entries]: an accepted update is a list of signed, sorted, unique entries (curs: the parse of tx.Extra, see common.Describes / common.CanonicalNodes)
+//@   ensures [entries] err == nil ==> exists curs *common.CustodianUpdateRequest :: {curs.Nodes} common.Describes(curs, tx.Extra) && common.CanonicalNodes(curs)
+//@   hint return [entries-local] err == nil ==> common.Describes(curs, tx.Extra) && common.CanonicalNodes(curs)
 //@   loop 0 invariant forall k int :: 0 <= k && k < len(all) ==> all[k] != nil
 //@   loop 0 invariant forall h crypto.Hash :: has(filter, h) ==> filter[h] != nil
 //@   loop 1 invariant forall h crypto.Hash :: has(filter, h) ==> filter[h] != nil
+//@   -- the second loop only writes its own temporaries (id, sig): every byte block that existed when it was entered is unchanged
+//@   loop 1 invariant [kept] forall p *crypto.Key :: {*p} loopentry(allocated(p)) ==> *p == loopentry(*p)
 //@   loop 1 invariant timestamp >= node.Epoch && (s.Timestamp != 0 ==> timestamp == s.Timestamp) &&
 //@       common.ApprovalOK(CustodianAt(node.persistStore, timestamp).Custodian, tx.Extra)
